@@ -15,7 +15,11 @@
 EXTENDS Balance
 
 Biomass == {"BIOMASA", "BIOMASADENSIFICADA"}
-LowScopTag == "CTEEPBD_EXCLUYE_SCOP_ACS"
+\* comment class of a component whose comment holds the tag CTEEPBD_EXCLUYE_SCOP_ACS (ambient heat of a heat pump
+\* with a low seasonal performance, not to be counted as renewable DHW supply)
+LowScopTag == "@lowscop"
+LowScopOf(C) == R(ISumSet(LAMBDA i : ISumSeq(C[i].v),
+                          {i \in Idx(C) : IsUsed(C[i]) /\ C[i].cr = "EAMBIENTE" /\ C[i].srv = "ACS" /\ C[i].cm = LowScopTag}))
 
 \* ren / (ren + nren) of the supply factor of carrier c (on-site source for electricity)
 FracKey(c) == Key(c, IF c = "ELECTRICIDAD" THEN "INSITU" ELSE "RED", "SUMINISTRO", "A")
